@@ -122,4 +122,16 @@ PROPS = {
         ],
         "assumptions": ["plane sizes as the decoders produce them; delta plane of width*height bytes (read_alpha_chunk reads exactly that many or fails)"],
     },
+    "C11": {
+        "technique": "Lean 4 proofs on the read_image dispatch model (composition of C13/C05 pixel theorems) + wrappings x alpha flag x poison fills x wrong lengths x double-read correspondence",
+        "level_text": "Theorems for every still, wrapping, buffer length and buffer content: the size formula; every other length is rejected before anything is written; lossless paths do not depend on the old buffer contents and RGB = RGBA without alpha; simple = extended wrapping; on the lossy paths pixel (x,y) carries the same three colour bytes (C13's kernel) in the RGB and RGBA outputs whatever both buffers held, and a set alpha flag without ALPH chunk gives alpha 255 everywhere. The in-place VP8L decoder's byte-level independence of the old buffer contents is C01's model and, in this pass, is covered by execution: every generated payload (VP8L alpha bit 0/1, VP8, ALPH+VP8 x 4 filters) is read in 5 wrappings under two buffer poisons, three wrong lengths and twice in a row, all results compared with each other and with the model.",
+        "level_note": "Trusted: Lean kernel + standard axioms; payload decoders at their contracts (C01/C02/C05); the animated wrapping uses C06's model.",
+        "design_ref": "DESIGN.md section 4, C11",
+        "trusted_base": COMMON_TB + [
+            "modelled, not verified: decoder.rs read_image (buffer-length test, VP8L path with scratch Vec and alpha drop, VP8 path with fill_rgb / fill_rgba + alpha loop / opaque fill, animated branch through Anim.readFrame), output_buffer_size",
+            "specification: the property's own clauses (cross-wrapping equalities, determinism, rejection)",
+        ],
+        "assumptions": ["the animated wrapping is a single full-canvas frame with the no-blend flag (a blended frame is composited over the background colour and legitimately differs)"],
+        "partial": ["byte-level init-independence of LosslessDecoder::decode_frame (in-place) is not yet a theorem; exercised with poisoned buffers on every run"],
+    },
 }
